@@ -42,6 +42,7 @@ type scenario struct {
 	NSample int    `json:"nsample"`
 	Kind    string `json:"kind"`  // "" (plan) | reflect
 	Chunk   string `json:"chunk"` // whole | random | byte | frame
+	Inline  bool   `json:"inline"` // victim = client: the tampered frames arrive IN THE SAME SEGMENT as the server's handshake response
 	Seed    int64  `json:"seed"`
 }
 
@@ -150,7 +151,8 @@ func runScenario(s *scenario) {
 
 func oneRun(b *o4.Bridge, s *scenario, rng *mrand.Rand, bit int) bool {
 	w.Emit(vt.Ev{"event": "Run", "bit": bit})
-	l := wire.NewLink(true, 0)
+	inline := s.Inline && s.Victim == "client"
+	l := wire.NewLink(!inline, 0)
 	type hres struct {
 		c   net.Conn
 		err error
@@ -158,13 +160,36 @@ func oneRun(b *o4.Bridge, s *scenario, rng *mrand.Rand, bit int) bool {
 	vch := make(chan hres, 1)
 	var rc *ref.Conn
 	var refRaw, vicRaw *wire.Conn
+	var held []byte // inline: the server's handshake response (and seed frame), not delivered yet
 	if s.Victim == "client" {
 		vicRaw, refRaw = l.A, l.B
 		go func() { c, err := b.RealClient(0, false)(l.A); vch <- hres{c, err} }()
+		stop := make(chan struct{})
+		if inline {
+			// the link does not forward by itself: carry the client's request over, keep the response back
+			go func() {
+				for {
+					select {
+					case <-stop:
+						return
+					default:
+					}
+					if x := l.A.Take(); len(x) > 0 {
+						l.B.Deliver(x)
+					}
+					time.Sleep(100 * time.Microsecond)
+				}
+			}()
+		}
 		_, err := b.RefServer(rng.Intn(200), nil, nil, &rc)(l.B)
+		close(stop)
 		if err != nil {
 			w.Emit(vt.Ev{"event": "DriverDead", "why": "ref server: " + err.Error()})
 			return false
+		}
+		if inline {
+			time.Sleep(time.Millisecond)
+			held = l.B.Take()
 		}
 	} else {
 		vicRaw, refRaw = l.B, l.A
@@ -176,10 +201,13 @@ func oneRun(b *o4.Bridge, s *scenario, rng *mrand.Rand, bit int) bool {
 		}
 	}
 	_ = refRaw
-	v := <-vch
-	if v.err != nil {
-		w.Emit(vt.Ev{"event": "DriverDead", "why": "victim handshake: " + v.err.Error()})
-		return false
+	var v hres
+	if !inline {
+		v = <-vch
+		if v.err != nil {
+			w.Emit(vt.Ev{"event": "DriverDead", "why": "victim handshake: " + v.err.Error()})
+			return false
+		}
 	}
 	// the original frames: N data frames + 2 maximal trailing frames
 	var cells []cell
@@ -300,6 +328,29 @@ func oneRun(b *o4.Bridge, s *scenario, rng *mrand.Rand, bit int) bool {
 		intactBytes += payloadOf[k]
 	}
 	w.Emit(vt.Ev{"event": "Plan", "intact": intactBytes, "total": total, "intact_frames": intactFrames})
+	if inline {
+		// response, seed frame and the tampered frames in ONE segment: the client decodes what arrives with the response
+		// while it is still inside Dial
+		var all []byte
+		all = append(all, held...)
+		for _, c := range cells {
+			all = append(all, c.b...)
+		}
+		vicRaw.Deliver(all)
+		select {
+		case v = <-vch:
+		case <-time.After(10 * time.Second):
+			w.Emit(vt.Ev{"event": "DriverDead", "why": "victim handshake did not return"})
+			return false
+		}
+		if v.err != nil {
+			// the damage was met inside the handshake: Dial reports it, nothing is delivered
+			w.Emit(vt.Ev{"event": "End", "err": v.err.Error(), "note": "reported by the handshake", "hs": true, "damaged": intactFrames < len(cells)})
+			l.A.Close()
+			l.B.Close()
+			return true
+		}
+	}
 	// the victim's application reader
 	done := make(chan string, 1)
 	readerGone := make(chan struct{})
@@ -344,6 +395,9 @@ func oneRun(b *o4.Bridge, s *scenario, rng *mrand.Rand, bit int) bool {
 	for _, c := range cells {
 		all = append(all, c.b...)
 	}
+	if inline {
+		all = nil // already there
+	}
 	switch s.Chunk {
 	case "byte":
 		for i := range all {
@@ -363,7 +417,9 @@ func oneRun(b *o4.Bridge, s *scenario, rng *mrand.Rand, bit int) bool {
 			vicRaw.Deliver(c.b)
 		}
 	default:
-		vicRaw.Deliver(all)
+		if len(all) > 0 {
+			vicRaw.Deliver(all)
+		}
 	}
 	report := func(e string) {
 		if e == io.EOF.Error() {
